@@ -114,7 +114,8 @@ theorem C15_NoLostWakeup (cfg : Cfg) (adv gate : Nat) (progP progC : List Call) 
 `Close` of `ReadFrom` (frame `rfret n e`), `ReadFrom` returns `(n, e)`.  (2) In a reachable state a thread inside
 `Close` that cannot step is at one of its two `Lock`s and that mutex is held by an existing
 thread which *can* step.  (3) A thread inside a critical section releases the mutex within
-`csRank ≤ 3` own steps, none of which blocks. -/
+`csRank ≤ 4` own steps, none of which blocks (4 since the repair of F9: cursor test, `isDone`, the second look at
+the cursor, unlock). -/
 theorem C15_CloseTerminates (cfg : Cfg) (adv gate : Nat) (progP progC : List Call) (progsK : List (List Call))
     (hgate : gate ≤ adv) (hok : ProgsOK progP progC progsK) (sched : List Tid) :
     let s := reach cfg adv gate progP progC progsK sched
@@ -128,7 +129,7 @@ theorem C15_CloseTerminates (cfg : Cfg) (adv gate : Nat) (progP progC : List Cal
           holds th'.pc m = true ∧ step cfg s t' ≠ none) ∧
     (∀ t th m sh' th', s.getTh t = some th → holds th.pc m = true → tstep cfg s.sh t th = some (sh', th') →
         holds th'.pc m = true → csRank th'.pc < csRank th.pc) ∧
-    (∀ pc, csRank pc ≤ 3) := by
+    (∀ pc, csRank pc ≤ 4) := by
   intro s
   have h := (C15_invariant cfg adv gate progP progC progsK hgate hok sched).lock
   refine ⟨?_, ?_, ?_, ?_⟩
@@ -155,10 +156,13 @@ theorem C15_CloseTerminates (cfg : Cfg) (adv gate : Nat) (progP progC : List Cal
   · intro pc; cases pc <;> simp [csRank]
 
 /-- **DoneUnblocks.**  (1) `done` is never reset.  (2) With `done` set, a thread at an entry check
-(`Write`, `waitForWriteSpace`, the head of `ReadFrom`'s loop) returns end-of-stream in that step —
+(`Write`, `waitForWriteSpace` — on entry and, since the repair of F9, once more when it has found room —, the head of
+`ReadFrom`'s loop) returns end-of-stream in that step —
 inside `ReadFrom`: begins `ReadFrom`'s deferred `Close` (seven straight-line steps, `C15_CloseTerminates`),
-after which `ReadFrom` returns end-of-stream —, and a thread at the `done` test of a wait loop goes to
-the loop's unlock-and-return exit instead of `Wait`; (3) that exit returns end-of-stream (resp. begins
+after which `ReadFrom` returns end-of-stream —, and a thread at the `done` test of a wait loop does not go to `Wait`:
+the producer goes to the loop's unlock-and-return exit, the consumer to the second load of the producer cursor
+(F9), from where (2b) it leaves the loop in its next step either way — through the unlock-and-return exit if the data is
+still missing, with the data otherwise; (3) the exits return end-of-stream (resp. begin
 `ReadFrom`'s deferred `Close`) holding no mutex.  (4) A reachable state with `done` set in which no
 thread can take a step has no unfinished call: nobody stays blocked once the ring is closed. -/
 theorem C15_DoneUnblocks (cfg : Cfg) (adv gate : Nat) (progP progC : List Call) (progsK : List (List Call))
@@ -168,7 +172,13 @@ theorem C15_DoneUnblocks (cfg : Cfg) (adv gate : Nat) (progP progC : List Call) 
     (∀ t th sh' th', s.sh.done = true → doneTest th.pc = true → tstep cfg s.sh t th = some (sh', th') →
         (th'.pc = .idle ∧ ∃ r, th'.res = some r ∧ r.err = .eof) ∨
         (th'.pc = .x10 ∧ ∃ n, th'.cur = some (.rfret n .eof)) ∨
-        (∃ n p, th'.pc = .s35 n p) ∨ (∃ n c, th'.pc = .r76 n c) ∨ (∃ w n c, th'.pc = .p85 w n c)) ∧
+        (∃ n p, th'.pc = .s35 n p) ∨ (∃ n c, th'.pc = .r75r n c) ∨ (∃ w n c, th'.pc = .p84r w n c)) ∧
+    (∀ t th sh' th', ((∃ n c, th.pc = .r75r n c) ∨ (∃ w n c, th.pc = .p84r w n c)) →
+        tstep cfg s.sh t th = some (sh', th') →
+        sh' = s.sh ∧
+        ((∃ n c, th'.pc = .r76 n c ∧ s.sh.pseq ≤ c) ∨ (∃ n, th'.pc = .r79 n) ∨
+         (∃ w n c, th'.pc = .p85 w n c ∧ mustWait w n c s.sh.pseq = true) ∨
+         (∃ w n c, th'.pc = .p88 w n c s.sh.pseq ∧ mustWait w n c s.sh.pseq = false))) ∧
     (∀ t th sh' th', ((∃ n p, th.pc = .s35 n p) ∨ (∃ n c, th.pc = .r76 n c) ∨ (∃ w n c, th.pc = .p85 w n c)) →
         tstep cfg s.sh t th = some (sh', th') →
         ((th'.pc = .idle ∧ ∃ r, th'.res = some r ∧ r.err = .eof) ∨
@@ -177,11 +187,13 @@ theorem C15_DoneUnblocks (cfg : Cfg) (adv gate : Nat) (progP progC : List Call) 
         ∀ t th, s.getTh t = some th → th.pc = .idle ∧ th.prog = []) := by
   intro s
   have h := C15_invariant cfg adv gate progP progC progsK hgate hok sched
-  refine ⟨?_, ?_, ?_, ?_⟩
+  refine ⟨?_, ?_, ?_, ?_, ?_⟩
   · intro t th sh' th' hs hd
     exact done_stable cfg s.sh sh' t th th' hd hs
   · intro t th sh' th' hd ht hs
     exact done_exits cfg s.sh sh' t th th' hd ht hs
+  · intro t th sh' th' ht hs
+    exact reread_exits cfg s.sh sh' t th th' ht hs
   · intro t th sh' th' ht hs
     exact eof_exit_returns cfg s.sh sh' t th th' ht hs
   · intro hd hq t th hth
@@ -253,7 +265,7 @@ performs exactly those lock operations at the marks -/
 theorem C15_lock_facts :
     Mqtt.Generated.bufferLocks = lockFacts ∧
     markPcs.map (fun pc => (pc.yid, lockOpCode pc))
-      = (((lockFacts.map (·.2)).flatten |> markOps).filter (fun p => p.1 < 120)).map (fun p => (some p.1, p.2)) :=
+      = (((lockFacts.map (·.2)).flatten |> markOps).filter (fun p => p.1 != 120 && p.1 != 121)).map (fun p => (some p.1, p.2)) :=
   ⟨ring_lock_facts, lockFacts_steps⟩
 
 /-- **`ReadFrom` never hands its reader an empty slice** (an `io.Reader` answers a zero-length `Read`
@@ -341,19 +353,22 @@ call that waits being a step that is not enabled.  The theorems below derive tha
 * `C15_single_writer`                 only `p` moves `pseq`, only `c` moves `cseq`, `done` only goes up, and only
                                       at the first statement of `Close`;
 * `C15_call_refines_ringA_producer`   `Write(l)` / `WriteWait(l)` / `WriteCommit(l)` from call to return, under any
-                                      interleaving: outcome, linearisation point, net effect, and parked = guard false;
+                                      interleaving: outcome, linearisation point, net effect, `Close` makes blocked and later
+                                      calls fail, and parked = guard false;
 * `C15_call_refines_ringA_consumer`   the same for `ReadWait(n)` / `ReadPeek(n)` and `ReadCommit(n)`;
 * `C15_call_refines_ringA_close`      the same for `Close` (any thread), and what `done` does to the others;
 * `C15_readfrom_refines_ringA`        `ReadFrom`'s loop iteration = wait-for-one-byte, read, commit, deferred `Close`;
 * `C15_parked_iff_guard_false`        a quiescent state, thread by thread.
 
-**Where `RingA` is STRONGER than the ring** (NOTES-ringlife.md): `RingA` tests `done` and the cursors in one
-atomic step; the ring program (and buffer.go) tests them at two different statements of a call.  So a producer
-call answers `ok` if the ring was open when the call STARTED and there is space when it commits — also when
-`Close` has come in between (`C15_ringA_gap_late_commit`) —, and a consumer wait answers end-of-stream if the
-data was missing at its last cursor test and `done` is set at its `done` test — also when the data has been
-committed in between (`C15_ringA_gap_eof_with_data`).  In the equations below the `done` flag of the other
-moment is written `asOpen` / `asClosed`. -/
+**`done` versus the cursors (finding F9, NOTES-f9.md).**  `RingA` tests `done` and the cursors in one atomic step; buffer.go
+tested them at two statements of a wait loop.  Since the repair (a consumer that has seen `done` loads the producer cursor
+again; `waitForWriteSpace` tests `isDone` once more after its last look at the consumer cursor) the two are tested in ONE
+state where it matters: a consumer's end-of-stream and a producer's `ok` of `waitForWriteSpace` are EXACT `RingA` steps
+(`RingA.waitData … = eof`, `RingA.waitSpace … = ok` on `absRing` of the linearisation state, no `done` flag of another
+moment), and `Close` makes every parked, blocked-or-later producer call fail.  What the ring before the repair did:
+`C15_old_ring_late_commit`, `C15_old_ring_eof_with_data` (closed executions of `Model.Ring.tstepPreF9`, reproduced on the real
+buffer).  What is left: a committing producer call tests `done` at its last `isDone` test and stores the cursor a few
+statements later — `Close` in between is `C15_commit_window`; `asOpen` remains only in the equation of that store step. -/
 
 open Mqtt.Model.Lifecycle (RingA Ret)
 
@@ -422,14 +437,21 @@ ANY schedule (steps of the consumer, of closers and of the producer itself, in a
 (1) If the call has returned in `a` with result `r`, then `r.err` is `ok`, end-of-stream or `ErrBufferFull`, and
 * `full`: `cap < l`, i.e. `RingA.waitSpace` answers `full`; `pseq` is what it was;
 * end-of-stream: `done` is set in `a` — so `RingA.waitSpace` answers `eof` there — and `pseq` is what it was;
-* `ok`: the ring was open when the call started (`done = false` in `s`: the call's own `isDone` test comes later
-  and has seen `false`); for `Write`/`WriteCommit` the result is `l`, `pseq` has grown by exactly `l`, and ONE own
-  step `x → y` of the call — the linearisation point — has `buf + l ≤ cap` before it and adds `l` to `buf`,
-  changing nothing else: it is `RingA.commitP (asOpen x) l = ok`; for `WriteWait`, `pseq` is what it was and
-  `buf + l ≤ cap` holds in `a` (and from then on, until the producer's next commit): `RingA.waitSpace (asOpen a) l = ok`.
-  (`done` may have been set between the start of the call and that point: `C15_ringA_gap_late_commit`.)
+* `ok`: ONE own step `x → y` of the call — its LAST `isDone` test (mark 39, after its last look at the consumer cursor) —
+  IS `RingA.waitSpace (absRing x) l = ok`, EXACTLY: the ring is open AND `buf + l ≤ cap` in the same state `x`, and the
+  step changes nothing (since the repair of F9; before it the two were tested at different moments,
+  `C15_old_ring_late_commit`).  For `Write`/`WriteCommit` a LATER own step `x' → y'` — the cursor store — has
+  `buf + l ≤ cap` before it and adds exactly `l`, changing nothing else; it IS `RingA.commitP (absRing x') l = ok`
+  if the ring is still open in `x'`; the result is `l` and `pseq` has grown by exactly `l`.  (What is left of the
+  gap: `Close` between that last test and the store — for `Write` the byte copy lies in between —,
+  `C15_commit_window`.)  For `WriteWait`, `pseq` is what it was and `buf + l ≤ cap` holds in `a`, and from then on.
 
-(2) If no thread can take a step in `a`, the call is unfinished exactly when the producer is parked inside it
+(2) **`Close` makes every blocked or later producer call fail.**  If at ANY point `x` of the execution `done` is set
+while the call has not yet passed its last `isDone` test — it has not started, it is parked in `pcond.Wait` or about to
+park, it has just been woken, it is anywhere in `waitForWriteSpace` or at the entry of `Write` — the call does not return
+`ok` (it returns end-of-stream, or `ErrBufferFull` for `cap < l`).
+
+(3) If no thread can take a step in `a`, the call is unfinished exactly when the producer is parked inside it
 and `RingA.waitSpace (absRing a) l = none`: blocked = the life-cycle step is not enabled.
 
 That the producer's own steps touch neither `cseq` nor `done`, and other threads' steps not `pseq`: `C15_single_writer`. -/
@@ -448,22 +470,31 @@ theorem C15_call_refines_ringA_producer (cfg : Cfg) (adv gate : Nat) (progP prog
       (r.err = .eof → a.sh.done = true ∧ a.sh.pseq = s.sh.pseq ∧
         (l ≤ c.cap → RingA.waitSpace c (absRing a) l = some (.eof, absRing a))) ∧
       (r.err = .ok → s.sh.done = false ∧
-        (commits call = true → r.n = l ∧ a.sh.pseq = s.sh.pseq + l ∧
-          ∃ pre post, sched = pre ++ .p :: post ∧
-            step cfg (run cfg s pre) .p = some (run cfg s (pre ++ [.p])) ∧
-            (absRing (run cfg s pre)).buf + l ≤ c.cap ∧
-            absRing (run cfg s (pre ++ [.p])) = { absRing (run cfg s pre) with buf := (absRing (run cfg s pre)).buf + l } ∧
-            RingA.commitP c (asOpen (absRing (run cfg s pre))) l = some (.ok, asOpen (absRing (run cfg s (pre ++ [.p]))))) ∧
+        (∃ pre post, sched = pre ++ .p :: post ∧
+          step cfg (run cfg s pre) .p = some (run cfg s (pre ++ [.p])) ∧
+          RingA.waitSpace c (absRing (run cfg s pre)) l = some (.ok, absRing (run cfg s pre)) ∧
+          absRing (run cfg s (pre ++ [.p])) = absRing (run cfg s pre) ∧
+          (commits call = true → ∃ mid post', post = mid ++ .p :: post' ∧
+            step cfg (run cfg s (pre ++ .p :: mid)) .p = some (run cfg s (pre ++ .p :: mid ++ [.p])) ∧
+            (absRing (run cfg s (pre ++ .p :: mid))).buf + l ≤ c.cap ∧
+            absRing (run cfg s (pre ++ .p :: mid ++ [.p])) =
+              { absRing (run cfg s (pre ++ .p :: mid)) with buf := (absRing (run cfg s (pre ++ .p :: mid))).buf + l } ∧
+            ((run cfg s (pre ++ .p :: mid)).sh.done = false →
+              RingA.commitP c (absRing (run cfg s (pre ++ .p :: mid))) l =
+                some (.ok, absRing (run cfg s (pre ++ .p :: mid ++ [.p])))))) ∧
+        (commits call = true → r.n = l ∧ a.sh.pseq = s.sh.pseq + l) ∧
         (commits call = false → a.sh.pseq = s.sh.pseq ∧
           RingA.waitSpace c (asOpen (absRing a)) l = some (.ok, asOpen (absRing a))))) ∧
+    (∀ pre post r, sched = pre ++ post → (run cfg s pre).sh.done = true → notPastFinal call rest (run cfg s pre) →
+      pRet a rest r → r.err ≠ .ok) ∧
     ((∀ t, step cfg a t = none) →
       (¬ pOver rest a ↔
         (pParked a.P.pc = true ∧ a.P.cur = some call ∧ a.P.prog = rest ∧ RingA.waitSpace c (absRing a) l = none))) := by
   intro s hidle hprog l c a
   have hlive := C15_invariant cfg adv gate progP progC progsK hgate hok sched0
   have h := hlive.safe
-  refine ⟨fun r hret => ?_, fun hq => ?_⟩
-  · obtain ⟨a1, a2, a3, a4, a5, a6⟩ := pcall_start cfg adv call rest hk s sched h hidle hprog r hret
+  refine ⟨fun r hret => ?_, fun pre post r hsch hd hnp hret => ?_, fun hq => ?_⟩
+  · obtain ⟨a1, a2, a3, a4, a5, a6, a7⟩ := pcall_start cfg adv call rest hk s sched h hidle hprog r hret
     have ha : RInv cfg adv a := rinv_run cfg adv s sched h
     refine ⟨a1, ?_, ?_, ?_⟩
     · intro hf
@@ -473,12 +504,21 @@ theorem C15_call_refines_ringA_producer (cfg : Cfg) (adv gate : Nat) (progP prog
       obtain ⟨x, y⟩ := a2 he
       exact ⟨x, y, fun hl => ra_waitSpace_eof c rfl _ l x hl⟩
     · intro ho
-      refine ⟨a4 ho, ?_, ?_⟩
-      · intro hc
-        obtain ⟨b1, b2, pre, post, b3, b4⟩ := a5 ho hc
+      refine ⟨a4 ho, ?_, ?_, ?_⟩
+      · obtain ⟨pre, post, b3, b4, b5⟩ := a7 ho
         have hx : RInv cfg adv (run cfg s pre) := rinv_run cfg adv s pre h
-        obtain ⟨x, y, z⟩ := linP_ringA cfg l _ _ hx.glob.cp b4
-        exact ⟨b1, b2, pre, post, b3, b4.1, x, y, z⟩
+        obtain ⟨w1, w2⟩ := linW_ringA cfg l _ _ hx.glob.cp b4
+        refine ⟨pre, post, b3, b4.1, w1, w2, fun hc => ?_⟩
+        obtain ⟨mid, post', c1, c2⟩ := b5 hc
+        have hx' : RInv cfg adv (run cfg s (pre ++ .p :: mid)) := rinv_run cfg adv s _ h
+        obtain ⟨x, y, z⟩ := linP_ringA cfg l _ _ hx'.glob.cp c2
+        refine ⟨mid, post', c1, c2.1, x, y, fun hdx => ?_⟩
+        have hdy : (run cfg s (pre ++ .p :: mid ++ [.p])).sh.done = false := by rw [c2.2.2.2.2]; exact hdx
+        rw [asOpen_of_open _ (by simpa using hdx), asOpen_of_open _ (by simpa using hdy)] at z
+        exact z
+      · intro hc
+        obtain ⟨b1, b2, _⟩ := a5 ho hc
+        exact ⟨b1, b2⟩
       · intro hc
         obtain ⟨b1, b2⟩ := a6 ho hc
         refine ⟨b1, ra_waitSpace_ok c _ l rfl ?_⟩
@@ -486,6 +526,8 @@ theorem C15_call_refines_ringA_producer (cfg : Cfg) (adv gate : Nat) (progP prog
         have b2' : a.sh.pseq + l ≤ a.sh.cseq + cfg.size := b2
         show a.sh.pseq - a.sh.cseq + l ≤ cfg.size
         omega
+  · have hret' : pRet (run cfg s (pre ++ post)) rest r := by rw [← hsch]; exact hret
+    exact pcall_start_closed cfg adv call rest hk s pre post h hidle hprog r hret' hd hnp
   · have hk' := plainP_amount call s.P hk
     have hph : PPhase cfg call l rest s := .notStarted hidle hprog rfl
     have hqz := pcall_quiescent cfg adv call l rest hk' s sched hlive hph hq
@@ -506,12 +548,13 @@ between two calls, `sched` any schedule, `a` the state after it.
 
 (A) `ReadWait(n)` (`w = true`, waits for `n` bytes) resp. `ReadPeek(n)` (`w = false`, waits for one byte, hands out
 at most `n`) is the next call.  (1) If it has returned with `r`: the consumer cursor is what it was (no effect);
-`r.err = full` iff `cap < n` (`RingA.waitData` answers `full`); end-of-stream only with `done` set in `a` and
-fewer than the awaited bytes buffered when the call started — hence at every cursor test of the call:
-`RingA.waitData (asClosed s) = eof` —; otherwise the `r.n` bytes handed out (`= n`, no error, for `ReadWait`) are
-buffered in `a`, and stay so until the consumer's own next commit: `RingA.waitData (absRing a) n = ok`, whether
-or not the ring is closed (bytes committed before `Close` are still handed out).  (An end-of-stream answer while
-the bytes ARE there at that moment is possible: `C15_ringA_gap_eof_with_data`.)
+`r.err = full` iff `cap < n` (`RingA.waitData` answers `full`); end-of-stream only with `done` set, and ONE own step
+`x → y` of the call — the load of the producer cursor AFTER it has seen `done` (marks 131–133) — IS
+`RingA.waitData (absRing x) need = eof`, EXACTLY: `done` is set AND fewer than the awaited bytes are buffered in the same
+state `x` (since the repair of F9; before it `done` and the cursor were tested at different moments and end-of-stream could be
+answered with the bytes there, `C15_old_ring_eof_with_data`); otherwise the `r.n` bytes handed out (`= n`, no error, for
+`ReadWait`) are buffered in `a`, and stay so until the consumer's own next commit: `RingA.waitData (absRing a) n = ok`,
+whether or not the ring is closed (bytes committed before `Close` are still handed out).
 (2) If nothing can run in `a`: the call is unfinished exactly when the consumer is parked inside it and
 `RingA.waitData (absRing a) (need w n) = none`.
 
@@ -528,8 +571,11 @@ theorem C15_call_refines_ringA_consumer (cfg : Cfg) (adv gate : Nat) (progP prog
       (∀ r, cRet a rest r →
         a.sh.cseq = s.sh.cseq ∧ (r.err = .full ↔ c.cap < n) ∧
         (r.err = .full → RingA.waitData c (absRing a) n = some (.full, absRing a)) ∧
-        (r.err = .eof → a.sh.done = true ∧ (absRing s).buf < need w n ∧
-          RingA.waitData c (asClosed (absRing s)) (need w n) = some (.eof, asClosed (absRing s))) ∧
+        (r.err = .eof → a.sh.done = true ∧
+          ∃ pre post, sched = pre ++ .c :: post ∧
+            step cfg (run cfg s pre) .c = some (run cfg s (pre ++ [.c])) ∧
+            RingA.waitData c (absRing (run cfg s pre)) (need w n) = some (.eof, absRing (run cfg s pre)) ∧
+            absRing (run cfg s (pre ++ [.c])) = absRing (run cfg s pre)) ∧
         (r.err ≠ .eof → r.err ≠ .full → waitRes w n r ∧ r.n ≤ (absRing a).buf ∧
           (w = true → RingA.waitData c (absRing a) n = some (.ok, absRing a)))) ∧
       ((∀ t, step cfg a t = none) →
@@ -557,7 +603,9 @@ theorem C15_call_refines_ringA_consumer (cfg : Cfg) (adv gate : Nat) (progP prog
       obtain ⟨x, y⟩ := a3 he
       have hnf : ¬ cfg.size < n := fun hb => by have := a2.mpr hb; rw [he] at this; cases this
       have hneed : need w n ≤ cfg.size := by cases w <;> simp [need] <;> omega
-      exact ⟨x, y, ra_waitData_eof c rfl _ _ hneed (by simpa using y) rfl⟩
+      obtain ⟨pre, post, b3, b4⟩ := y
+      obtain ⟨e1, e2⟩ := linE_ringA cfg _ _ _ hneed b4
+      exact ⟨x, pre, post, b3, b4.1, e1, e2⟩
     · intro hne hnf
       obtain ⟨x, y⟩ := a4 hne hnf
       refine ⟨x, y, fun hw => ?_⟩
@@ -773,58 +821,100 @@ theorem C15_parked_iff_guard_false (cfg : Cfg) (adv gate : Nat) (progP progC : L
     · cases hc
     · cases hc
 
-/-! ### where `RingA` is stronger than the ring: the two gaps, as closed executions on a 4-byte ring -/
+/-! ### finding F9: `done` versus the cursors — the ring before the repair, the repaired ring on the same schedules, and
+what is left (closed executions on a 4-byte ring) -/
 
-/-- **Gap 1 — a producer commit after `Close`.**  Ring of 4 bytes, full; the producer is parked in `Write(2)`
-(30 producer steps: `Write(4)`, then `Write(2)` up to `pcond.Wait`); a closer runs `Close` COMPLETELY (8 steps; `done` is
-set, the producer is woken but not scheduled); the consumer runs `ReadWait(2)`, reads, `ReadCommit(2)` COMPLETELY (two
-bytes are free now); then the producer re-evaluates only its space condition (`for cpos = cseq.get(); wrap > cpos; …` —
-`done` is tested inside the loop body), finds it false, copies, and commits: `Write` returns `(2, nil)`, `pseq` goes
-4 → 6, with `done = true` in every state since before the consumer even started.  In `RingA`, `commitP` on a closed ring
-answers end-of-stream and leaves `buf` alone.  The contract that does hold is `C15_call_refines_ringA_producer`:
-open when the call STARTED, space when it commits. -/
-theorem C15_ringA_gap_late_commit :
+/-- a reachable state of the ring BEFORE the repair of F9 (`Model.Ring.tstepPreF9`) -/
+def reachPreF9 (cfg : Cfg) (adv gate : Nat) (progP progC : List Call) (progsK : List (List Call))
+    (sched : List Tid) : St :=
+  runPreF9 cfg (mkInit cfg adv gate progP progC progsK) sched
+
+/-- **F9 (1), the ring before the repair — a producer commit after `Close`.**  Ring of 4 bytes, full; the producer is
+parked in `Write(2)` (30 producer steps: `Write(4)`, then `Write(2)` up to `pcond.Wait`); a closer runs `Close` COMPLETELY
+(8 steps; `done` is set, the producer is woken but not scheduled); the consumer runs `ReadWait(2)`, reads, `ReadCommit(2)`
+COMPLETELY (two bytes are free now); then the producer re-evaluates only its space condition
+(`for cpos = cseq.get(); wrap > cpos; …` — `done` was tested inside the loop body only), finds it false, copies, and commits:
+`Write` returns `(2, nil)`, `pseq` goes 4 → 6, with `done = true` in every state since before the consumer even started.
+`RingA.commitP` on that ring answers end-of-stream.  Reproduced on the real buffer (corpus/ring/f9-late-commit.ops).
+THE REPAIRED RING on the same schedule (second part): the producer, woken, finds room, tests `isDone` once more
+(mark 39) and returns end-of-stream; `pseq` stays 4 — `C15_call_refines_ringA_producer` (2). -/
+theorem C15_old_ring_late_commit :
     let cfg : Cfg := { k := 2, src := fun i => UInt8.ofNat (i + 1) }
     let c := ringCfg cfg
-    let progs := reach cfg 0 0 [.write 4, .write 2] [.rwait 2, .use, .commit 2] [[.close]]
-    let s1 := progs (List.replicate 30 .p)
-    let s2 := progs (List.replicate 30 .p ++ List.replicate 8 (.k 0))
-    let s3 := progs (List.replicate 30 .p ++ List.replicate 8 (.k 0) ++ List.replicate 30 .c)
-    let s4 := progs (List.replicate 30 .p ++ List.replicate 8 (.k 0) ++ List.replicate 30 .c ++ List.replicate 12 .p)
-    -- parked in Write(2), ring full and open
-    (pParked s1.P.pc = true ∧ s1.P.cur = some (.write 2) ∧ absRing s1 = { buf := 4, done := false } ∧
-      RingA.waitSpace c (absRing s1) 2 = none) ∧
-    -- Close has returned
-    ((s2.K.map (·.pc)) = [.idle] ∧ (s2.K.map (·.res)) = [some {}] ∧ absRing s2 = { buf := 4, done := true } ∧
-      pParked s2.P.pc = true) ∧
-    -- the consumer's three calls have returned, two bytes consumed
-    (s3.C.pc = .idle ∧ s3.C.prog = [] ∧ absRing s3 = { buf := 2, done := true } ∧ pParked s3.P.pc = true ∧
-      RingA.commitP c (absRing s3) 2 = some (.eof, absRing s3)) ∧
-    -- Write(2) returns ok and has committed
-    (s4.P.pc = .idle ∧ s4.P.prog = [] ∧ s4.P.res = some { n := 2 } ∧ absRing s4 = { buf := 4, done := true } ∧
-      s4.sh.pseq = 6) := by
+    let sch1 := List.replicate 30 Tid.p
+    let sch2 := sch1 ++ List.replicate 8 (.k 0)
+    let sch3 := sch2 ++ List.replicate 30 .c
+    let sch4 := sch3 ++ List.replicate 12 .p
+    (let progs := reachPreF9 cfg 0 0 [.write 4, .write 2] [.rwait 2, .use, .commit 2] [[.close]]
+     (pParked (progs sch1).P.pc = true ∧ (progs sch1).P.cur = some (.write 2) ∧ absRing (progs sch1) = { buf := 4, done := false }) ∧
+     (((progs sch2).K.map (·.pc)) = [.idle] ∧ absRing (progs sch2) = { buf := 4, done := true } ∧ pParked (progs sch2).P.pc = true) ∧
+     ((progs sch3).C.pc = .idle ∧ (progs sch3).C.prog = [] ∧ absRing (progs sch3) = { buf := 2, done := true } ∧
+       pParked (progs sch3).P.pc = true ∧ RingA.commitP c (absRing (progs sch3)) 2 = some (.eof, absRing (progs sch3))) ∧
+     ((progs sch4).P.pc = .idle ∧ (progs sch4).P.prog = [] ∧ (progs sch4).P.res = some { n := 2 } ∧
+       absRing (progs sch4) = { buf := 4, done := true } ∧ (progs sch4).sh.pseq = 6)) ∧
+    (let progs := reach cfg 0 0 [.write 4, .write 2] [.rwait 2, .use, .commit 2] [[.close]]
+     (pParked (progs sch1).P.pc = true ∧ absRing (progs sch1) = { buf := 4, done := false }) ∧
+     (absRing (progs sch3) = { buf := 2, done := true } ∧ pParked (progs sch3).P.pc = true) ∧
+     ((progs sch4).P.pc = .idle ∧ (progs sch4).P.prog = [] ∧ (progs sch4).P.res = some { err := .eof } ∧
+       absRing (progs sch4) = { buf := 2, done := true } ∧ (progs sch4).sh.pseq = 4)) := by
   decide +kernel
 
-/-- **Gap 2 — end-of-stream although the bytes are there.**  Empty ring of 4 bytes.  The consumer's `ReadWait(2)` has
-taken `ccond.L`, tested the producer cursor (nothing there) and stands before its `isDone` test (5 consumer steps); the
-producer's `Write(2)` stores the cursor and waits for `ccond.L` to broadcast; a closer's `Close` stores `done` and waits for
-`ccond.L` too; the consumer tests `done`, unlocks and returns end-of-stream — in a state with 2 bytes buffered, where
-`RingA.waitData … 2` answers `ok`.  Its next `ReadWait(2)` returns those 2 bytes: end-of-stream, then data.  (In `RingA`
-end-of-stream needs `buf < n` and `done` at the same moment, and nothing is committed to a closed ring afterwards.)
-The contract that does hold is `C15_call_refines_ringA_consumer`: too little data when the call looked, `done` when it returned. -/
-theorem C15_ringA_gap_eof_with_data :
+/-- **F9 (2), the ring before the repair — end-of-stream although the bytes are there.**  Empty ring of 4 bytes.  The
+consumer's `ReadWait(2)` has taken `ccond.L`, tested the producer cursor (nothing there) and stands before its `isDone` test
+(5 consumer steps); the producer's `Write(2)` stores the cursor and waits for `ccond.L` to broadcast; a closer's `Close` stores
+`done` and waits for `ccond.L` too; the consumer tests `done`, unlocks and returns end-of-stream — in a state with 2 bytes
+buffered, where `RingA.waitData … 2` answers `ok`; its next `ReadWait(2)` returns those 2 bytes: end-of-stream, then data.
+Reproduced on the real buffer (corpus/ring/f9-eof-with-data.ops).  (`done` can be set inside that window only by a
+third goroutine: a producer that commits and then closes the ring itself needs `ccond.L` for the Broadcast of that commit
+first.)  THE REPAIRED RING on the same schedule (second part): having seen `done` the consumer loads the producer cursor
+again (mark 133), finds the 2 bytes, and returns them — `C15_call_refines_ringA_consumer` (A). -/
+theorem C15_old_ring_eof_with_data :
+    let cfg : Cfg := { k := 2, src := fun i => UInt8.ofNat (i + 1) }
+    let c := ringCfg cfg
+    let sch1 := List.replicate 5 Tid.c ++ List.replicate 30 .p ++ List.replicate 8 (.k 0)
+    (let progs := reachPreF9 cfg 0 0 [.write 2] [.rwait 2, .rwait 2] [[.close]]
+     let s1 := progs sch1
+     let s2 := progs (sch1 ++ List.replicate 2 .c)
+     let s3 := progs (sch1 ++ List.replicate 2 .c ++ List.replicate 12 .p ++ List.replicate 8 (.k 0) ++ List.replicate 12 .c)
+     (s1.C.pc = .p84 true 2 0 ∧ s1.P.pc = .w43 2 ∧ (s1.K.map (·.pc)) = [.x14] ∧ absRing s1 = { buf := 2, done := true }) ∧
+     (s2.C.pc = .idle ∧ (s2.C.res.map (·.err)) = some .eof ∧ absRing s2 = { buf := 2, done := true } ∧
+       RingA.waitData c (absRing s2) 2 = some (.ok, absRing s2)) ∧
+     (s3.C.pc = .idle ∧ s3.C.prog = [] ∧ (s3.C.res.map (fun r => (r.n, r.err))) = some (2, .ok))) ∧
+    (let progs := reach cfg 0 0 [.write 2] [.rwait 2, .rwait 2] [[.close]]
+     let s1 := progs sch1
+     let s2 := progs (sch1 ++ List.replicate 1 .c)
+     let s3 := progs (sch1 ++ List.replicate 3 .c)
+     (s1.C.pc = .p84 true 2 0 ∧ s1.P.pc = .w43 2 ∧ absRing s1 = { buf := 2, done := true }) ∧
+     s2.C.pc = .p84r true 2 0 ∧
+     (s3.C.pc = .idle ∧ (s3.C.res.map (fun r => (r.n, r.err))) = some (2, .ok))) := by
+  decide +kernel
+
+/-- **What is left (repaired ring): `Close` between a producer's last `isDone` test and its cursor store.**  Empty ring of
+4 bytes.  The producer's `Write(2)` has passed its last `isDone` test (5 steps: it stands at the byte copy); a closer runs
+`Close` completely; the consumer's `ReadWait(2)` sees `done`, looks at the producer cursor again — nothing — and returns
+end-of-stream, exactly as `RingA.waitData` does in that state; then the producer copies, stores the cursor and returns `ok`,
+and the consumer's next `ReadWait(2)` returns the 2 bytes.  Each consumer call is an exact `RingA` step; the producer's
+`ok` is exact at its last test (`RingA.waitSpace … = ok` there) and its effect lands two statements later, after the
+`Close`.  Closing this window needs the `done` store and (`done` test + cursor store) under one mutex — a different
+locking scheme of the ring, not a repair.  Inside a connection the closers of the INCOMING ring are the producer itself
+(the receiver's deferred `Close`, after its last commit) and `stop()`; a commit that races `stop()` races the teardown. -/
+theorem C15_commit_window :
     let cfg : Cfg := { k := 2, src := fun i => UInt8.ofNat (i + 1) }
     let c := ringCfg cfg
     let progs := reach cfg 0 0 [.write 2] [.rwait 2, .rwait 2] [[.close]]
-    let s1 := progs (List.replicate 5 .c ++ List.replicate 30 .p ++ List.replicate 8 (.k 0))
-    let s2 := progs (List.replicate 5 .c ++ List.replicate 30 .p ++ List.replicate 8 (.k 0) ++ List.replicate 2 .c)
-    let s3 := progs (List.replicate 5 .c ++ List.replicate 30 .p ++ List.replicate 8 (.k 0) ++ List.replicate 2 .c ++
-                     List.replicate 12 .p ++ List.replicate 8 (.k 0) ++ List.replicate 12 .c)
-    (s1.C.pc = .p84 true 2 0 ∧ s1.P.pc = .w43 2 ∧ (s1.K.map (·.pc)) = [.x14] ∧ absRing s1 = { buf := 2, done := true }) ∧
-    (s2.C.pc = .idle ∧ (s2.C.res.map (·.err)) = some .eof ∧ absRing s2 = { buf := 2, done := true } ∧
-      RingA.waitData c (absRing s2) 2 = some (.ok, absRing s2)) ∧
-    (s3.C.pc = .idle ∧ s3.C.prog = [] ∧ (s3.C.res.map (fun r => (r.n, r.err))) = some (2, .ok) ∧
-      s3.P.pc = .idle ∧ (s3.K.map (·.pc)) = [.idle]) := by
+    let sch1 := List.replicate 5 Tid.p
+    let sch2 := sch1 ++ List.replicate 8 (.k 0)
+    let sch3 := sch2 ++ List.replicate 6 .c
+    let sch4 := sch3 ++ List.replicate 2 .c
+    let sch5 := sch4 ++ List.replicate 8 .p
+    let sch6 := sch5 ++ List.replicate 8 .c
+    ((progs sch1).P.pc = .w41c 2 0 0 ∧ beforeFinal (progs sch1).P.pc = false ∧ absRing (progs sch1) = { buf := 0, done := false }) ∧
+    (((progs sch2).K.map (·.pc)) = [.idle] ∧ absRing (progs sch2) = { buf := 0, done := true }) ∧
+    ((progs sch3).C.pc = .p84r true 2 0 ∧
+      RingA.waitData c (absRing (progs sch3)) 2 = some (.eof, absRing (progs sch3))) ∧
+    ((progs sch4).C.pc = .idle ∧ ((progs sch4).C.res.map (·.err)) = some .eof) ∧
+    ((progs sch5).P.pc = .idle ∧ (progs sch5).P.res = some { n := 2 } ∧ absRing (progs sch5) = { buf := 2, done := true }) ∧
+    ((progs sch6).C.pc = .idle ∧ ((progs sch6).C.res.map (fun r => (r.n, r.err))) = some (2, .ok)) := by
   decide +kernel
 
 /-! non-vacuity: a blocked reader is woken by data, a blocked reader is woken by Close -/
@@ -871,7 +961,7 @@ example :
 /-- `C15_call_refines_ringA_producer` (2): `Write(2)` on a full ring with nobody else around parks; nothing can run;
 the call is not over, and `RingA.waitSpace … 2 = none` -/
 example :
-    let s := reach exCfg 0 0 [.write 4, .write 2] [] [] (List.replicate 13 .p)
+    let s := reach exCfg 0 0 [.write 4, .write 2] [] [] (List.replicate 14 .p)
     let a := run exCfg s (List.replicate 20 .p)
     s.P.pc = .idle ∧ s.P.prog = [.write 2] ∧ amount (.write 2) s.P = 2 ∧
     step exCfg a .p = none ∧ step exCfg a .c = none ∧ a.K = [] ∧
@@ -879,21 +969,35 @@ example :
     RingA.waitSpace (ringCfg exCfg) (absRing a) 2 = none := by decide +kernel
 
 /-- `C15_call_refines_ringA_producer` (1): the same call, parked, is released by the consumer's `ReadCommit(2)` and
-returns `ok`: `pseq` has grown by 2, the linearisation step is the 7th producer step after the wake-up (`w42`), where
-`buf + 2 ≤ cap` holds and `RingA.commitP … 2 = ok` -/
+returns `ok`: its last `isDone` test (the 4th producer step after the wake-up, `s39`) IS `RingA.waitSpace … 2 = ok` on the ring
+as it is; the cursor store (the 8th, `w42`) has `buf + 2 ≤ cap` before it and IS `RingA.commitP … 2 = ok`; `pseq` has grown by 2 -/
 example :
-    let s := reach exCfg 0 0 [.write 4, .write 2] [.rwait 2, .use, .commit 2] [] (List.replicate 13 .p)
+    let s := reach exCfg 0 0 [.write 4, .write 2] [.rwait 2, .use, .commit 2] [] (List.replicate 14 .p)
     let sched := List.replicate 20 .p ++ List.replicate 30 .c ++ List.replicate 12 .p
-    let pre := List.replicate 20 .p ++ List.replicate 30 .c ++ List.replicate 6 .p
+    let pre := List.replicate 20 .p ++ List.replicate 30 .c ++ List.replicate 3 .p
+    let mid := List.replicate 3 Tid.p
     let a := run exCfg s sched
     let x := run exCfg s pre
-    let y := run exCfg s (pre ++ [.p])
+    let x' := run exCfg s (pre ++ .p :: mid)
+    let y' := run exCfg s (pre ++ .p :: mid ++ [.p])
     s.P.pc = .idle ∧ s.P.prog = [.write 2] ∧ s.sh.done = false ∧
     pParked (run exCfg s (List.replicate 20 .p)).P.pc = true ∧
     pRet a [] { n := 2 } ∧ a.sh.pseq = s.sh.pseq + 2 ∧
-    sched = pre ++ .p :: List.replicate 5 .p ∧ x.P.pc = .w42 2 4 ∧ (step exCfg x .p).isSome = true ∧
-    absRing x = { buf := 2 } ∧ absRing y = { buf := 4 } ∧
-    RingA.commitP (ringCfg exCfg) (asOpen (absRing x)) 2 = some (.ok, asOpen (absRing y)) := by decide +kernel
+    sched = pre ++ .p :: (mid ++ .p :: List.replicate 4 .p) ∧
+    x.P.pc = .s39 2 4 ∧ RingA.waitSpace (ringCfg exCfg) (absRing x) 2 = some (.ok, absRing x) ∧
+    x'.P.pc = .w42 2 4 ∧ (step exCfg x' .p).isSome = true ∧
+    absRing x' = { buf := 2 } ∧ absRing y' = { buf := 4 } ∧
+    RingA.commitP (ringCfg exCfg) (absRing x') 2 = some (.ok, absRing y') := by decide +kernel
+
+/-- `C15_call_refines_ringA_producer` (2): the same parked call is released by `Close` instead: woken, it finds no room,
+sees `done` and returns end-of-stream; and if the consumer frees the room before the producer runs, it finds room,
+tests `isDone` once more and returns end-of-stream all the same (`C15_old_ring_late_commit`, second part) -/
+example :
+    let s := reach exCfg 0 0 [.write 4, .write 2] [] [[.close]] (List.replicate 14 .p)
+    let x := run exCfg s (List.replicate 20 .p ++ List.replicate 8 (.k 0))
+    let a := run exCfg s (List.replicate 20 .p ++ List.replicate 8 (.k 0) ++ List.replicate 6 .p)
+    x.sh.done = true ∧ pParked x.P.pc = true ∧ notPastFinal (.write 2) [] x ∧
+    pRet a [] { err := .eof } ∧ a.sh.pseq = s.sh.pseq := by decide +kernel
 
 /-- `C15_call_refines_ringA_consumer` (A): `ReadWait(2)` on an empty ring parks (`RingA.waitData … 2 = none`); `Close` from
 another thread releases it: end-of-stream, `done` set, too little data when the call started -/
@@ -903,8 +1007,10 @@ example :
     let a := run exCfg s (List.replicate 8 .c ++ List.replicate 8 (.k 0) ++ List.replicate 6 .c)
     s.C.pc = .idle ∧ s.C.prog = [waitCall true 2] ∧
     cParked q.C.pc = true ∧ RingA.waitData (ringCfg exCfg) (absRing q) (need true 2) = none ∧
-    cRet a [] { err := .eof } ∧ a.sh.done = true ∧ a.sh.cseq = s.sh.cseq ∧ (absRing s).buf < need true 2 ∧
-    RingA.waitData (ringCfg exCfg) (asClosed (absRing s)) (need true 2) = some (.eof, asClosed (absRing s)) := by
+    cRet a [] { err := .eof } ∧ a.sh.done = true ∧ a.sh.cseq = s.sh.cseq ∧
+    (let x := run exCfg s (List.replicate 8 .c ++ List.replicate 8 (.k 0) ++ List.replicate 3 .c)
+     x.C.pc = .p84r true 2 0 ∧
+     RingA.waitData (ringCfg exCfg) (absRing x) (need true 2) = some (.eof, absRing x)) := by
   decide +kernel
 
 /-- `C15_call_refines_ringA_consumer` (A) with data and (B): `ReadWait(2)` with 3 bytes buffered returns `ok`
@@ -940,10 +1046,10 @@ the slice has 2 ≤ `cap - buf` bytes, the `WriteCommit(2)` it calls fits, and i
 example :
     let cfg : Cfg := { k := 2, src := fun i => UInt8.ofNat (i + 1), rblock := 2 }
     let r := fun k => reach cfg 0 0 [.rfrom 0 [4, 4, 4]] [] [[.close]] (List.replicate k .p)
-    (r 4).P.pc = .g112 0 [4, 4, 4] 0 ∧ (absRing (r 4)).buf + 1 ≤ (ringCfg cfg).cap ∧
-    (r 5).P.pc = .g111 0 [4, 4, 4] 0 2 ∧ 2 ≤ (ringCfg cfg).cap - (absRing (r 5)).buf ∧
-    (r 9).P.pc = .g111r 0 [4, 4] 2 ∧
-    (r 12).P.pc = .c50 2 0 ∧ (r 12).P.cur = some (.rfcommit 2 [4, 4]) ∧ visOf (r 12).P.pc = .prod 2 ∧
-    RingA.commitP (ringCfg cfg) (asOpen (absRing (r 12))) 2 = some (.ok, asOpen (absRing (r 13))) := by decide +kernel
+    (r 5).P.pc = .g112 0 [4, 4, 4] 0 ∧ (absRing (r 5)).buf + 1 ≤ (ringCfg cfg).cap ∧
+    (r 6).P.pc = .g111 0 [4, 4, 4] 0 2 ∧ 2 ≤ (ringCfg cfg).cap - (absRing (r 6)).buf ∧
+    (r 10).P.pc = .g111r 0 [4, 4] 2 ∧
+    (r 14).P.pc = .c50 2 0 ∧ (r 14).P.cur = some (.rfcommit 2 [4, 4]) ∧ visOf (r 14).P.pc = .prod 2 ∧
+    RingA.commitP (ringCfg cfg) (absRing (r 14)) 2 = some (.ok, absRing (r 15)) := by decide +kernel
 
 end Mqtt.Properties.C15
